@@ -258,12 +258,10 @@ impl CheckpointManager {
             .context("Failed to read checkpoint directory")?
             .filter_map(Result::ok)
             .filter(|entry| {
-                entry.file_name().to_str().is_some_and(|name| {
-                    name.starts_with(&prefix)
-                        && Path::new(name)
-                            .extension()
-                            .is_some_and(|ext| ext.eq_ignore_ascii_case("bin"))
-                })
+                entry
+                    .file_name()
+                    .to_str()
+                    .is_some_and(|name| checkpoint_file_timestamp(name, &prefix).is_some())
             })
             .collect();
 
@@ -330,12 +328,10 @@ impl CheckpointManager {
             .context("Failed to read checkpoint directory")?
             .filter_map(Result::ok)
             .filter(|entry| {
-                entry.file_name().to_str().is_some_and(|name| {
-                    name.starts_with(&prefix)
-                        && Path::new(name)
-                            .extension()
-                            .is_some_and(|ext| ext.eq_ignore_ascii_case("bin"))
-                })
+                entry
+                    .file_name()
+                    .to_str()
+                    .is_some_and(|name| checkpoint_file_timestamp(name, &prefix).is_some())
             })
             .collect();
 
@@ -376,12 +372,10 @@ impl CheckpointManager {
             .context("Failed to read checkpoint directory")?
             .filter_map(Result::ok)
             .filter(|entry| {
-                entry.file_name().to_str().is_some_and(|name| {
-                    name.starts_with(&prefix)
-                        && Path::new(name)
-                            .extension()
-                            .is_some_and(|ext| ext.eq_ignore_ascii_case("bin"))
-                })
+                entry
+                    .file_name()
+                    .to_str()
+                    .is_some_and(|name| checkpoint_file_timestamp(name, &prefix).is_some())
             })
             .collect();
 
@@ -391,6 +385,19 @@ impl CheckpointManager {
 
         Ok(())
     }
+}
+
+/// Timestamp of a checkpoint file name, if `name` is exactly `<prefix><decimal u64>.bin`.
+///
+/// Anything else that merely starts with the prefix (another pipeline whose id extends this one,
+/// temporary or foreign files) is not a checkpoint of this pipeline.
+#[cfg(feature = "checkpointing")]
+fn checkpoint_file_timestamp(name: &str, prefix: &str) -> Option<u64> {
+    let stamp = name.strip_prefix(prefix)?.strip_suffix(".bin")?;
+    if stamp.is_empty() || !stamp.bytes().all(|b| b.is_ascii_digit()) {
+        return None;
+    }
+    stamp.parse().ok()
 }
 
 /// Compute SHA-256 checksum of data.
